@@ -159,7 +159,11 @@ def run(rep, work, tier, seed, props, replay=None):
     real = []
     for i, msgs in viol:
         m = msgs[0]
-        if "inplace_failure_nulls_target_grad" in kf and "left a trace" in m and all((".grad" in d or ".pub_grad" in d) for d in m.split(": ", 1)[1].split("; ")) and "inplace" in m:
+        if "composite_function_fails_in_its_second_step" in kf and "(composite_second_step on" in m and "left a trace" in m \
+                and all((".grad" in d or ".pub_grad" in d or ".hasops" in d or ".has_base" in d or d == ".base changed") for d in m.split(": ", 1)[1].split("; ")):
+            # (what the FIRST, successful, operation does to its operand: drops its gradient, registers a consumer, drops the base of a view whose graph was cleared)
+            known_hits["composite_function_fails_in_its_second_step"] = known_hits.get("composite_function_fails_in_its_second_step", 0) + 1
+        elif "inplace_failure_nulls_target_grad" in kf and "left a trace" in m and all((".grad" in d or ".pub_grad" in d) for d in m.split(": ", 1)[1].split("; ")) and "inplace" in m:
             known_hits["inplace_failure_nulls_target_grad"] = known_hits.get("inplace_failure_nulls_target_grad", 0) + 1
         else:
             real.append((i, msgs))
